@@ -1,5 +1,6 @@
 (* C17 — the explain trace agrees with what matching actually does.  Statements only; proofs in RIO.RouterProofs. *)
 Require Import RIO.Base RIO.Route RIO.Layer RIO.Tree RIO.TreeInst RIO.Matchers RIO.MatcherSpec RIO.RouterSpec RIO.RouterHist RIO.RouterProofs.
+Require RIO.ActionModel RIO.ActionTrace.
 Close Scope N_scope.
 
 (* on the router reached by any admissible history, the routes appearing in the trace are exactly the
@@ -29,5 +30,15 @@ Proof.
   apply (rrun_refines lower eng valid ih ip al Hd Hp ops _ []); [apply rrepr_new|exact Hok].
 Qed.
 
+(* the action trace (TraceAction::from_trace_rules: stable sort by priority, one step per rule, reset / merge / stop):
+   when the ranks of the traced rules are pairwise distinct its LAST step is the action the live pipeline computes
+   (Action::from_routes_rule) from the same rules, for every sampling override and every sequence of random draws *)
+Theorem C17_action_trace_last : forall (rules : list ActionModel.rule) skipped override rvs,
+  NoDup (map ActionModel.r_rank rules) ->
+  last (ActionTrace.trace_actions rules skipped override rvs) ActionModel.action_default
+  = ActionModel.from_routes_rule rules skipped override rvs.
+Proof. exact ActionTrace.trace_last_is_live. Qed.
+
 Print Assumptions C17_routes.
 Print Assumptions C17_final_priority.
+Print Assumptions C17_action_trace_last.
